@@ -7,7 +7,10 @@ PROP = 'C06'
 
 def key_of(case, clause):
     c = case['c']
-    return {'culture': c['culture'], 'layout': c['layout'], 'text': c['text'], 'clause': clause.split(':')[0]}
+    k = {'culture': c['culture'], 'layout': c['layout'], 'text': c['text'], 'clause': clause.split(':')[0]}
+    if c.get('opt'):
+        k['opt'] = c['opt']
+    return k
 
 
 def run(tier):
@@ -15,7 +18,8 @@ def run(tier):
         PROP, tier, gens=[{'module': 'Gen_DateAbs', 'cfg': 'Gen_DateAbs_%s.cfg' % tier}],
         case_of=d.case_of, trace=d.TRACE, key_of=key_of, corruptors=d.CORRUPTORS, init_name='datetime', batch=40, timeout=20.0,
         rule='cases = terminal states of Gen_DateAbs (%s): dates x layouts (English: ISO, m/d/yyyy, mm/dd/yyyy, m-d-yyyy, Month d yyyy, Month dth yyyy, d Month yyyy, '
-             'dth of Month yyyy, Mon d yyyy; other cultures: ISO, dd/mm/yyyy, dd-mm-yyyy, d <month name> yyyy) x reference datetimes x carriers; each replayed into '
+             'dth of Month yyyy, Mon d yyyy, yyyy-m-d; English also in calendar mode; other cultures: ISO, dd/mm/yyyy, dd-mm-yyyy, d/m/yyyy, d-m-yyyy, d <month name> yyyy with and '
+             'without the culture\'s ordinal mark on the day) x reference datetimes x carriers; each replayed into '
              'recognize_datetime; verdict by TLC (Trace_DT: one entity, exact span, type date, timex = value = YYYY-MM-DD)' % tier,
         assumptions=d.ASSUME, exhaustive=True)
 
